@@ -102,6 +102,24 @@ PROPS["C22"] = dict(
     jobs=[dict(name="e3::reward_flag_propagation", fn=jobs_e3.run_reward_flag)],
 )
 
+# --------------------------------------------------------------------------- C10
+_C10 = ["sstore", "tstore", "log0", "log2", "log4", "create", "create2", "selfdestruct", "eofcreate"]
+PROPS["C10"] = dict(
+    functions=["revm_interpreter::instructions::host::{sstore, tstore, log::<0|2|4>, selfdestruct}", "revm_interpreter::instructions::contract::{create::<false|true>, eofcreate, call, extcall}",
+               "the CallInputs aggregate built by contract::{call, call_code, delegate_call, static_call, extcall, extdelegatecall, extstaticcall} (MIR)"],
+    bounds="is_static = true; 8 symbolic 256-bit stack words (all operand values), all u64 gas; CALL/EXTCALL: every non-zero value, symbolic target; "
+           "SPEC = LatestSpec; host = NoHost (any host call fails the harness); flag propagation: the single CallInputs construction of each of the 7 call opcodes",
+    outside="`the world state at the end of the static call equals the state at its start` (needs journal revert, DESIGN §2); LOG1/LOG3 (same generic body as LOG0/2/4); "
+            "other Spec instantiations of the guard (it is not spec dependent); nested frames beyond the flag handed to the child",
+    assumptions=["Interpreter assembled field by field with an 8-word stack buffer (c03::new_interp)", "Kani/CBMC/CaDiCaL; z3/cvc5 trusted",
+                 "MIR aggregate `CallInputs { .. is_static: X .. }` is the only place the child's flag is set (one construction per opcode, checked)"],
+    harnesses=[H("c10::c10_" + n, timeout=600, mem_gb=6, bounds="all operands x all gas, static frame") for n in _C10]
+    + [H("c10::c10_call_with_value", timeout=900, mem_gb=6, bounds="all non-zero values x target x gas"),
+       H("c10::c10_extcall_with_value", tier="thorough", timeout=1500, mem_gb=14, bounds="all non-zero values x target x gas (EOF frame)"),
+       H("c10::c10_twin_must_fail", expect_fail=True, bounds="vacuity twin", mem_gb=6)],
+    jobs=[dict(name="e3::static_flag_propagation", fn=jobs_e3.run_static_flag)],
+)
+
 # --------------------------------------------------------------------------- C11
 _C11 = ['c11_child_p0_c32', 'c11_child_p32_c64', 'c11_child_p64_c0', 'c11_child_p96_c96', 'c11_cost_base_p32_c64', 'c11_cost_base_p0_c96', 'c11_cost_base_p64_c0', 'c11_resize_0_32', 'c11_resize_32_96', 'c11_resize_64_64', 'c11_expand_0_to_1', 'c11_expand_0_to_33', 'c11_expand_32_to_64', 'c11_expand_32_to_96_after_child', 'c11_expand_0_to_32_after_child', 'c11_window_c64_n8_off0_d0', 'c11_window_c64_n8_off56_d20', 'c11_window_c64_n32_off17_d30', 'c11_window_c32_n32_off0_d5', 'c11_outcome_ret8_out16', 'c11_outcome_ret40_out16', 'c11_outcome_ret0_out16', 'c11_outcome_ret16_out0', 'c11_expand_huge_fails']
 PROPS["C11"] = dict(
@@ -122,7 +140,8 @@ PROPS["C11"] = dict(
 # --------------------------------------------------------------------------- C12
 _C12 = ['c12_push_0', 'c12_push_1', 'c12_push_1023', 'c12_push_1024', 'c12_pop_0', 'c12_pop_1', 'c12_pop_2', 'c12_pop_1024', 'c12_peek_set_0', 'c12_peek_set_1', 'c12_peek_set_17', 'c12_peek_set_1024', 'c12_dup_n0_k1', 'c12_dup_n1_k1', 'c12_dup_n1_k2', 'c12_dup_n16_k16', 'c12_dup_n16_k17', 'c12_dup_n255_k256', 'c12_dup_n300_k256', 'c12_dup_n1023_k1', 'c12_dup_n1023_k16', 'c12_dup_n1024_k1', 'c12_dup_n1024_k16', 'c12_exchange_n0_a0_m1', 'c12_exchange_n1_a0_m1', 'c12_exchange_n2_a0_m1', 'c12_exchange_n3_a1_m1', 'c12_exchange_n3_a1_m2', 'c12_exchange_n3_a2_m1', 'c12_exchange_n17_a0_m16', 'c12_exchange_n17_a0_m17', 'c12_exchange_n17_a16_m1', 'c12_exchange_n33_a16_m16', 'c12_exchange_n32_a16_m16', 'c12_exchange_n1024_a0_m1023', 'c12_exchange_n1024_a1_m1023', 'c12_push_slice_n0_l0', 'c12_push_slice_n0_l1', 'c12_push_slice_n0_l5', 'c12_push_slice_n0_l8', 'c12_push_slice_n0_l20', 'c12_push_slice_n0_l31', 'c12_push_slice_n0_l32', 'c12_push_slice_n0_l33', 'c12_push_slice_n0_l45', 'c12_push_slice_n0_l64', 'c12_push_slice_n0_l70', 'c12_push_slice_n1021_l70', 'c12_push_slice_n1022_l70', 'c12_push_slice_n1022_l64', 'c12_push_slice_n1023_l33', 'c12_push_slice_n1023_l32', 'c12_push_slice_n1024_l1', 'c12_push_slice_n1024_l0']
 _C12_THOROUGH_ONLY = {"c12_push_slice_n0_l5", "c12_push_slice_n0_l20", "c12_push_slice_n0_l45", "c12_push_slice_n0_l64", "c12_push_slice_n1022_l64",
-                      "c12_exchange_n2_a0_m1", "c12_exchange_n3_a2_m1", "c12_exchange_n32_a16_m16", "c12_dup_n300_k256", "c12_dup_n1_k2", "c12_dup_n1024_k16", "c12_pop_2", "c12_peek_set_1"}
+                      "c12_push_slice_n0_l70", "c12_push_slice_n1021_l70", "c12_exchange_n2_a0_m1", "c12_exchange_n32_a16_m16",
+                      "c12_dup_n300_k256", "c12_dup_n1_k2", "c12_dup_n1024_k16", "c12_pop_2", "c12_peek_set_1", "c12_peek_set_1024", "c12_push_1"}
 PROPS["C12"] = dict(
     functions=["revm_interpreter::Stack::{new, push, push_b256, pop, peek, set, dup, swap, exchange, push_slice, len, data} "
                "(crates/interpreter/src/interpreter/stack.rs), on the real 1024-word buffer"],
@@ -266,6 +285,34 @@ CLAIMS = {
         technique="MIR data-flow resolution + SMT query (z3+cvc5) per rebuild call site; native replay on the real Handler",
         engine="smt-mir",
         design_ref="DESIGN.md §5 C22"),
+    "C03": dict(
+        text="Each of ADD SUB LT GT SLT SGT EQ ISZERO AND OR XOR NOT BYTE SHL SHR SAR SIGNEXTEND is run as the real instruction function on a real Interpreter "
+             "with fully symbolic 256-bit operands and gas, and CBMC compares result, stack effect, gas charge and failure behaviour with limb-wise reference models "
+             "that do not use ruint - the full 2^512 operand space per opcode, which no test vector set can enumerate (sign boundaries, shift 255/256, index 30/31).",
+        note="Group B (MUL DIV SDIV MOD SMOD ADDMOD MULMOD EXP) is NOT decided: ruint's 256-bit multiply/divide kernels do not unwind in CBMC. "
+             "Stack depth is arity+1 / arity-1 per harness; the interpreter is assembled field by field with an 8-word stack buffer.",
+        technique="Kani/CBMC bounded model checking of the real opcode functions against limb-wise 256-bit reference models (full operand space)",
+        design_ref="DESIGN.md §5 C03"),
+    "C10": dict(
+        text="In a static frame every state-changing opcode function is run on symbolic operands with a host on which any call is a failure: CBMC shows the "
+             "result is the static-mode error, nothing is charged, no action is scheduled and the host is never reached; value-bearing CALL/EXTCALL are rejected for "
+             "every non-zero value. The static flag handed to child frames is read off the MIR of all seven call opcodes and compared by z3/cvc5 with the required value.",
+        note="The end-state-equals-start-state half of the property needs journal revert and is outside. Flag propagation is a structural (MIR) check.",
+        technique="Kani/CBMC on the real opcode functions in static mode + MIR aggregate scan with SMT equivalence (z3+cvc5)",
+        engine="kani-cbmc + smt-mir", design_ref="DESIGN.md §5 C10"),
+    "C11": dict(
+        text="SharedMemory context push/pop, growth, the write primitives, resize_memory's quadratic charge and insert_call_outcome's return window are run on "
+             "symbolic byte contents and gas with a symbolic witness byte position: CBMC shows a child starts empty and zeroed, the parent is byte-for-byte and "
+             "size-wise unchanged after the child, writes touch exactly their window, expansion charges memory_gas(new)-memory_gas(old) and changes nothing on failure.",
+        note="Sizes/offsets are concrete per harness (<= 96 bytes, 2 levels); a resize after free_context does not close in CBMC and rests on Vec::resize semantics.",
+        technique="Kani/CBMC bounded model checking of the real SharedMemory / resize_memory / insert_call_outcome with symbolic contents and witness index",
+        design_ref="DESIGN.md §5 C11"),
+    "C12": dict(
+        text="Every Stack operation is checked as one inductive step on the real 1024-word buffer from a pre-state with arbitrary contents: result/err class, length, the "
+             "moved words and - through a symbolic witness position - that no other word changed; CBMC's pointer checks stay on, so an out-of-bounds copy or swap is a failure.",
+        note="Pre-state lengths and dup/exchange offsets are the instantiated ones (boundaries of every check); slices <= 70 bytes; sequences via the invariant len<=1024, capacity==1024.",
+        technique="Kani/CBMC single-step induction on the real Stack (1024-word buffer, --arrays-uf-always), symbolic contents and witness position, memory-safety checks on",
+        design_ref="DESIGN.md §5 C12"),
     "C13": dict(
         text="Bounded model checking of the compiled Gas meter with Kani/CBMC: every method is decided for all 64-bit values from every "
              "state satisfying remaining<=limit (single-step induction), plus all 4-step method sequences against an unbounded-integer model. "
@@ -295,7 +342,7 @@ CLAIMS = {
         engine="kani-cbmc + smt-mir",
         design_ref="DESIGN.md §5 C32"),
 }
-SMT_SERVES = {"C32", "C07", "C22", "C20", "C21", "C05"}
+SMT_SERVES = {"C32", "C07", "C22", "C20", "C21", "C05", "C10"}
 
 # --------------------------------------------------------------------------- not applicable (reason shown in MANIFEST.json)
 NOT_APPLICABLE = {
